@@ -69,6 +69,13 @@ prop("C19", True, "sched", MC, "stateless model checking (delay- and deviation-b
      "Zero Engine handle; sequences of control calls from a 10-call alphabet while running, racing with shutdown (second thread) and after shutdown; Stop(live ctx) nil only when the ledger shows pollers/listeners closed; Stop(cancelled ctx) returns the context error and the shutdown still completes; second Stop harmless; Register delivers exactly one result; Register with an injected epoll_ctl(ADD) failure delivers an error.",
      ENGINE_NOTE, "DESIGN.md §5/C19")
 
+prop("C05", True, "sched", MC, "stateless model checking of the -race build with race-detector-invisible (futex, //go:norace) scheduler hand-offs: the Go race detector is a per-schedule oracle inside an exhaustive schedule enumeration",
+     "12 scenarios of user goroutines calling the documented concurrency-safe API (AsyncWrite/AsyncWritev/Wake/Close/CloseWithCallback/SafeContext/SetSafeContext/Fd/Dup/socket options/Execute/Register/CountConnections/Stop) against accept, traffic, close, tick, engine start and stop x {LT,ET}: every schedule within the delay bound is judged by the race detector on gnet's own happens-before relation and by a confinement monitor (one thread per loop, no overlapping callbacks).",
+     ENGINE_NOTE + "Races are found between accesses executed in explored schedules; the detector's shadow memory keeps a bounded history; self-test control: MC_C05_CONTROL=1 (non-safe SetContext from another goroutine) must be reported.", "DESIGN.md §2.1, §5/C05")
+prop("C08", True, "sched", MC, "stateless model checking (delay- and deviation-bounded DFS) of the real engine with UDP listeners on loopback, plus a bounded-exhaustive datagram size sweep",
+     "IPv4 and IPv6 loopback, 1-2 loops, 1-2 senders x 1-3 datagrams of sizes {0,1,2,5,1023,1024,65507}: every handler consumption/reply choice within the deviation bound and every schedule within the delay bound; one datagram of every size 0..65507 (thorough; every 97th quick); exactly one OnTraffic per datagram with exactly its payload and the sender's address, each reply exactly one datagram at the addressed socket.",
+     ENGINE_NOTE + "Loopback UDP delivery assumed synchronous (guarded by a bounded settle step).", "DESIGN.md §5/C08")
+
 REASON_WIP = "check under construction in this build phase (machinery not committed yet)"
 for i in range(1, 21):
     id = "C%02d" % i
